@@ -82,8 +82,13 @@ def gen_poll_case(rng, nsteps, bias=None):
     while i < nsteps:
         r = rng.below(100)
         h = rng.below(3) if rng.chance(9, 10) else 3
-        if r < 18:
+        if r < 14:
             lines.append(f"start {h} {rng.below(4)} {rng.below(4)} {rng.choice([0, 1, 7, 50, 100, 100])}")
+        elif r < 18:
+            # one whole poll cycle: timer expires, stat is submitted, completes with the next result
+            st = gen_stat(rng, st)
+            lines += [f"advance {rng.choice([100, 100, 130])}", "run",
+                      rng.choice(["release 0 " + ",".join(map(str, st))] * 5 + ["release -2"]), "run"]
         elif r < 26:
             lines.append(f"stop {h}")
         elif r < 29:
@@ -562,6 +567,158 @@ def check_event_case(ctx, exe, case, do_model=True):
     return None, out
 
 
+# ============================================================================= fs_event (real kernel, monitors only)
+def gen_real_case(rng, nsteps):
+    lines = ["create f1", "create f2", "mkdir d1", "create d1/g1"]
+    files = {"f1", "f2", "d1/g1"}          # existing regular files
+    watched_files = ["f1", "f2", "d1/g1"]
+    gone = set()
+    for k in range(rng.range(0, 6)):
+        if rng.chance(1, 2):
+            ops = []
+            for _ in range(rng.range(1, 2)):
+                h = rng.below(NH)
+                ops.append(rng.choice([f"stop:{h}", f"stop:{h}", f"close:{h}", f"startp:{h}:{rng.below(4)}:{rng.choice(['.', 'f1', 'd1'])}"]))
+            lines.append(f"script {k} " + ";".join(ops))
+    extra = 0
+    for _ in range(nsteps):
+        r = rng.below(100)
+        h = rng.below(NH)
+        if r < 30:
+            cand = [p for p in [".", ".", "f1", "f1", "f2", "d1", "d1/g1"] if p not in gone]
+            lines.append(f"startp {h} {rng.below(4)} {rng.choice(cand)}")
+        elif r < 38:
+            lines.append(f"stop {h}")
+        elif r < 41:
+            lines.append(f"close {h}")
+        else:
+            k = rng.below(10)
+            live = sorted(files)
+            if k < 4 and live:
+                lines += [f"{rng.choice(['write', 'chmod'])} {rng.choice(live)}", "settle"]
+            elif k < 6:
+                extra += 1
+                name = f"{rng.choice(['', 'd1/'])}n{extra}"
+                files.add(name)
+                lines += [f"create {name}", "settle"]
+            elif k < 8:
+                cand = [f for f in live if f.split('/')[-1].startswith("n")]
+                if cand:
+                    f = rng.choice(cand)
+                    files.discard(f)
+                    if rng.chance(1, 2):
+                        lines += [f"unlink {f}", "settle"]
+                    else:
+                        extra += 1
+                        g = f"{rng.choice(['', 'd1/'])}n{extra}"
+                        files.add(g)
+                        lines += [f"rename {f} {g}", "settle"]
+            elif k < 9:
+                extra += 1
+                lines += [f"mkdir n{extra}", "settle", f"rmdir n{extra}", "settle"]
+            else:
+                f = "f2"
+                if f in files:
+                    files.discard(f)
+                    gone.add(f)
+                    lines += [f"unlink {f}", "settle"]
+    lines.append("end")
+    return lines
+
+
+def monitor_real(case, rc, out, err):
+    lines = out.splitlines()
+    if rc != 0:
+        tail = (err or "").strip().splitlines()[-12:]
+        kind = "asan" if "AddressSanitizer" in err or "LeakSanitizer" in err else ("timeout" if rc == -999 else "abort")
+        raise Bad(f"fsevent-real-{kind}", f"harness exited {rc}: " + " | ".join(tail)[-1200:])
+    watch = {h: None for h in range(NH)}
+    orphan = set()
+    stopped_since = set()
+    last_op = None
+    owed = []            # (h, name, needbits, text) since the last fs op
+    got = []             # (h, name, ev)
+
+    def dname(p):
+        return p.rsplit("/", 1)[0] if "/" in p else "."
+
+    def base(p):
+        return p.rsplit("/", 1)[-1]
+
+    for ln, l in enumerate(lines):
+        w = l.split()
+        if not w or l.startswith("#"):
+            if l.startswith("#settled"):
+                for (h, name, need, text) in owed:
+                    if watch[h] is None or h in stopped_since:
+                        continue
+                    if not any(gh == h and gn == name and (ge & need) == need for gh, gn, ge in got):
+                        raise Bad("fsevent-real-lost-event", f"line {ln}: `{text}` not reported to watching handle h{h} "
+                                                             f"as name={name} with event bits {need}; it got {[g for g in got if g[0] == h]}")
+                owed, got = [], []
+            continue
+        if w[0] == "op":
+            last_op = w[1:]
+            if w[1] in ("stop", "close"):
+                watch[int(w[2])] = None
+                stopped_since.add(int(w[2]))
+            continue
+        if w[0] == "ret":
+            if last_op and last_op[0] == "startp" and w[1] == "0":
+                watch[int(last_op[1])] = last_op[3]
+                orphan.discard(int(last_op[1]))
+            continue
+        if w[0] == "fsop":
+            stopped_since = set()
+            owed, got = [], []
+            if w[1] != "0":
+                continue
+            op, p = last_op[0], last_op[1]
+            cls = 2 if op in ("write", "chmod") else 1
+            for h in range(NH):
+                if watch[h] is None or h in orphan:
+                    continue
+                if watch[h] == dname(p):
+                    owed.append((h, base(p), cls, " ".join(last_op)))
+                if watch[h] == p:
+                    owed.append((h, base(p), cls, " ".join(last_op)))
+                    if op in ("unlink", "rename"):
+                        orphan.add(h)
+                if op == "rename" and watch[h] == dname(last_op[2]):
+                    owed.append((h, base(last_op[2]), 1, " ".join(last_op)))
+            continue
+        if w[0] == "cb":
+            h = int(w[1][1:])
+            if watch[h] is None:
+                raise Bad("fsevent-real-callback-after-stop", f"line {ln}: `{l}` delivered to a handle that is not watching")
+            got.append((h, w[3][5:], int(w[4][3:])))
+            continue
+        if w[0] == "loopclose":
+            if l != "loopclose 0 open=0":
+                raise Bad("fsevent-real-loop-not-closed", f"teardown: {l}")
+            continue
+        if w[0] == "bad-op":
+            raise Bad("fsevent-real-bad-op", f"line {ln}: generator produced an op the harness rejects")
+        if w[0] in ("misuse", "script"):
+            continue
+        raise Bad("fsevent-real-unparsed", f"line {ln}: {l}")
+    if not lines or not lines[-1].startswith("loopclose"):
+        raise Bad("fsevent-real-truncated", "no loopclose line")
+
+
+def check_real_case(ctx, exe, case, do_model=False):
+    d = Path(tempfile.mkdtemp(prefix="scratch-", dir=str(ctx.tmp)))
+    try:
+        rc, out, err = ctx.run(exe, ["real", str(d)], text="\n".join(case) + "\n", timeout=60)
+    finally:
+        shutil.rmtree(d, ignore_errors=True)
+    try:
+        monitor_real(case, rc, out, err)
+    except Bad as b:
+        return b, out
+    return None, out
+
+
 def shrink(ctx, exe, case, sig, checker):
     """delta-debugging over lines (keeps `end`)"""
     cur = list(case)
@@ -647,6 +804,14 @@ def run(ctx):
         rp = json.loads(Path(ctx.replay).read_text())["replay"]
         if rp["mode"] == "poll":
             run_cases(ctx, exe, [rp["ops"]], "replay", check_poll_case, poll_features, "poll", "FsPoll model vs src/fs-poll.c")
+        elif rp["mode"] == "event":
+            run_cases(ctx, exe, [rp["ops"]], "replay", check_event_case, event_features, "event",
+                      "FsEvent model vs inotify part of src/unix/linux.c")
+        else:
+            r, _ = check_real_case(ctx, exe, rp["ops"])
+            ctx.count()
+            if isinstance(r, Bad):
+                ctx.violation(r.sig, f"C17 (replay): {r.what}", {"mode": "real", "ops": rp["ops"]})
         return
     rng = ctx.rng
     cdir = VERIF / "corpus" / "C17"
@@ -654,31 +819,77 @@ def run(ctx):
         pc = [[l for l in p.read_text().splitlines() if l.strip()] for p in sorted(cdir.glob("poll-*.txt"))]
         if pc:
             run_cases(ctx, exe, pc, "corpus", check_poll_case, poll_features, "poll", "FsPoll model vs src/fs-poll.c")
+    POLL = ("random", check_poll_case, poll_features, "poll", "FsPoll model vs src/fs-poll.c")
+    EVENT = ("random", check_event_case, event_features, "event", "FsEvent model vs inotify part of src/unix/linux.c")
+    if cdir.exists():
+        ec = [[l for l in p.read_text().splitlines() if l.strip()] for p in sorted(cdir.glob("event-*.txt"))]
+        if ec:
+            run_cases(ctx, exe, ec, "corpus", *EVENT[1:])
+
+    def healthy():
+        return not ctx.violations and not any(k == "correspondence" for k, _, _ in ctx.broken)
+
     total = ctx.scale(500, 12000)
     done = 0
-    while done < total and not ctx.violations and not any(k == "correspondence" for k, _, _ in ctx.broken):
+    while done < total and healthy():
         cases = [gen_poll_case(rng, rng.range(4, ctx.scale(25, 60)), "restart" if rng.chance(1, 3) else None)
                  for _ in range(min(250, total - done))]
         if done == 0:
             ctx.sample({"fs_poll program": cases[0]})
-        run_cases(ctx, exe, cases, "random", check_poll_case, poll_features, "poll", "FsPoll model vs src/fs-poll.c")
+        run_cases(ctx, exe, cases, *POLL)
         done += len(cases)
+    total = ctx.scale(500, 12000)
+    done = 0
+    while done < total and healthy():
+        cases = [gen_event_case(rng, rng.range(4, ctx.scale(25, 50)), "shared" if rng.chance(1, 3) else None)
+                 for _ in range(min(250, total - done))]
+        if done == 0:
+            ctx.sample({"fs_event scripted program": cases[0]})
+        run_cases(ctx, exe, cases, *EVENT)
+        done += len(cases)
+    # real kernel: monitors only (which records the kernel produces is not modelled)
+    total = ctx.scale(150, 3000)
+    done = 0
+    ncbs = 0
+    while done < total and healthy():
+        cases = [gen_real_case(rng, rng.range(6, ctx.scale(25, 50))) for _ in range(min(150, total - done))]
+        if done == 0:
+            ctx.sample({"fs_event real-kernel program": cases[0]})
+        with ThreadPoolExecutor(NCPU) as ex:
+            res = list(ex.map(lambda c: check_real_case(ctx, exe, c), cases))
+        for c, (r, out) in zip(cases, res):
+            ctx.count()
+            ncbs += out.count("\ncb ")
+            if isinstance(r, Bad):
+                small = c if r.sig in ctx.known else shrink(ctx, exe, c, r.sig, check_real_case)
+                ctx.violation(r.sig, f"C17 (real kernel): {r.what}", {"mode": "real", "ops": small})
+                break
+        done += len(cases)
+    ctx.notes["real_kernel"] = f"{done} programs on a scratch directory, {ncbs} callbacks checked by the monitor"
     if ctx.broken and not ctx.violations:
         ctx.log("obligation broken; searching for a failing input with the monitors")
         srng = SplitMix(ctx.seed + 1717)
         n = 0
         for rnd in range(ctx.scale(40, 150)):
-            cases = [gen_poll_case(srng, srng.range(4, 60), "restart" if rnd % 2 else None) for _ in range(250)]
+            if rnd % 2 == 0:
+                cases = [gen_poll_case(srng, srng.range(4, 60), "restart" if rnd % 4 else None) for _ in range(250)]
+                chk, md = check_poll_case, "poll"
+            else:
+                cases = [gen_event_case(srng, srng.range(4, 50), "shared" if rnd % 4 == 1 else None) for _ in range(250)]
+                chk, md = check_event_case, "event"
             with ThreadPoolExecutor(NCPU) as ex:
-                res = list(ex.map(lambda c: check_poll_case(ctx, exe, c, False), cases))
+                res = list(ex.map(lambda c: chk(ctx, exe, c, False), cases))
             n += len(cases)
             for c, (r, _) in zip(cases, res):
                 if isinstance(r, Bad) and r.sig not in ctx.known:
-                    ctx.violation(r.sig, f"C17 (search): {r.what}", {"mode": "poll", "ops": shrink(ctx, exe, c, r.sig, check_poll_case)})
+                    ctx.violation(r.sig, f"C17 (search): {r.what}", {"mode": md, "ops": shrink(ctx, exe, c, r.sig, chk)})
                     break
             if ctx.violations:
                 break
         ctx.notes["search"] = f"{n} extra programs run against the monitors after an obligation broke"
     ctx.cov["rule"] = ("fs_poll: random programs (start/stop/close/getpath/advance/release(result)/run x callback scripts), stat results "
                        "scripted one field at a time; non-trivial = restart or close while a stat is in flight; distinct by op/event/callback "
-                       "sequence. fs_event: see notes.")
+                       "sequence. fs_event scripted: random programs (start/stop/close on 3 wds x aliases, dispatch of 1-4 scripted "
+                       "records per call incl. stale wds and several read buffers, callback scripts); non-trivial = >=2 handles on the "
+                       "dispatched wd or a stop/close from inside a callback. fs_event real kernel: file/dir ops on a scratch tree with "
+                       "overlapping watches, monitors only.")
